@@ -1019,6 +1019,57 @@ def r14h(ctx):
         raise AnalysisError(f"R14h: only {n} lookup function(s) found")
 
 
+def r14i(ctx):
+    """A lookup on a part answers from the XML, not from a note it made earlier.
+
+    "Lookups by name return exactly the element whose name equals the string given": a name can be changed (a style renamed, a bookmark's
+    name set) after it has been looked up once.  The lookups of XmlPart, Content, Styles, Meta and Manifest evaluate an XPath against the
+    tree every time, so they cannot be out of date.  A dict of answers kept on the part — filled by a getter, keyed by the name asked for —
+    has nothing that clears it when a name changes: the old name keeps finding the renamed element.  Rule (expected count 0 beyond the lazily
+    parsed tree and root, which R11k governs): no cache decorator on a method of an XmlPart class, and no read-only method of one stores
+    into an attribute of self or into a container held by self (by assignment, or by setdefault/update/append/add).
+    """
+    from .c02 import _memo_sites
+    from .c15 import READ_ONLY
+    repo = ctx.repo
+    ctx.rule("R14i", "lookups of XmlPart classes keep no memo of their answers on the part (only the lazily parsed tree and root)", floor=25)
+    base = repo.cls("XmlPart")
+    governed = {"__tree", "__root", "_XmlPart__tree", "_XmlPart__root"}
+    by_node = {}
+    for c in repo.all_classes():
+        if base not in c.mro:
+            continue
+        for name, fs in c.methods.items():
+            for f in fs:
+                if f.cls is c and f.kind not in ("setter", "deleter", "nested"):
+                    by_node[id(f.node)] = f
+    ro = {k for k, f in by_node.items() if f.kind == "getter" or READ_ONLY.match(f.name) or f.name.startswith("_get")}
+    sites = []
+    for fn, st, why in _memo_sites([f.node for f in by_node.values()], [], lambda fn: id(fn) in ro):
+        tg = st.targets if isinstance(st, ast.Assign) else [getattr(st, "target", None)]
+        names = {x.attr for t in tg if t is not None for x in ast.walk(t) if isinstance(x, ast.Attribute) and isinstance(x.value, ast.Name) and x.value.id == "self"}
+        if names and names <= governed:
+            continue
+        sites.append((fn, st, why))
+    for k in ro:
+        fn = by_node[k].node
+        for x in walk_no_nested(fn):
+            if isinstance(x, ast.Call) and isinstance(x.func, ast.Attribute) and x.func.attr in ("setdefault", "update", "append", "add", "__setitem__", "extend", "insert") \
+                    and isinstance(x.func.value, ast.Attribute) and isinstance(x.func.value.value, ast.Name) and x.func.value.value.id == "self" \
+                    and x.func.value.attr not in governed:
+                sites.append((fn, x, f"`{norm(x, 50)}` keeps an answer on the part"))
+    bad: dict[int, list] = {}
+    for fn, n_, why in sites:
+        bad.setdefault(id(fn), []).append((n_, why))
+    for k, f in sorted(by_node.items(), key=lambda kv: (kv[1].file, kv[1].node.lineno)):
+        b = bad.get(k, [])
+        ctx.instance("R14i", f"{f.file}:{f.ident}", "answers from the tree", ok=not b, nontrivial=k in ro, line=f.node.lineno)
+        for n_, why in b[:2]:
+            ctx.report("R14i", f, n_, why.split("`")[1] if "`" in why else why,
+                       f"{f.ident}: {why}; nothing clears it when an element is renamed, replaced or deleted, so a later lookup by the old name is answered with an "
+                       f"element whose name is no longer that string")
+
+
 def run(ctx):
     r14a(ctx)
     r14c(ctx)
@@ -1028,6 +1079,7 @@ def run(ctx):
     r14f(ctx)
     r14g(ctx)
     r14h(ctx)
+    r14i(ctx)
     # a named range is found under its table name only if the address writer and reader agree on how that name is quoted (rule shared with C19)
     from .c19 import r19b, r19f
     r19b(ctx)
@@ -1040,6 +1092,9 @@ from ..selftest import Seed, unparse_seed  # noqa: E402
 _XQ = "src/odfdo/utils/xpath_query.py"
 _EL = "src/odfdo/element.py"
 SEEDS = [
+    Seed("Content.get_style remembers its answers by (family, name)", "fault", "src/odfdo/content.py",
+         "            if style is not None:\n                return style\n        return None",
+         "            if style is not None:\n                self.__dict__.setdefault(\"_seen\", {})\n                self._seen[family, name_or_element] = style\n                return style\n        return None", "R14i"),
     Seed("reference mark looked up by comparing the decoded name in Python", "fault", _EL, '        if name:\n            request = (\n                f"descendant::text:reference-mark-start"\n                f"[@text:name={xpath_string_literal(name)}] "\n                f"| descendant::text:reference-mark"\n                f"[@text:name={xpath_string_literal(name)}]"\n            )\n            return self._filtered_element(request, position=0)\n', '        if name:\n            marks = [mark for mark in self.get_reference_marks() if mark.name == name]\n            return marks[0] if marks else None\n', "R14e"),
     Seed("Row.style decodes booleans again", "fault", "src/odfdo/row.py", '        return self.get_attribute_string("table:style-name")\n\n    @style.setter\n    def style(self, style: str | Element) -> None:\n        self.set_style_attribute("table:style-name", style)\n\n    @property\n    def width',
          '        return self.get_attribute("table:style-name")\n\n    @style.setter\n    def style(self, style: str | Element) -> None:\n        self.set_style_attribute("table:style-name", style)\n\n    @property\n    def width', "R14e"),
